@@ -458,8 +458,9 @@ bool Replay(const Scope& S, const std::vector<Op>& ops, const std::string& hist,
 // Each scope is searched to its own fixpoint. The state space is a product over outpoints and layers, so the
 // larger shapes use a smaller coin / block alphabet.
 const Scope SCOPES[] = {
-    {"2L-2P-2C-1B", 2, 2, 2, 1, true},
+    {"2L-2P-1C-1B", 2, 2, 1, 1, true},
     {"3L-1P-2C-2B", 3, 1, 2, 2, true},
+    {"2L-2P-2C-1B", 2, 2, 2, 1, false},
     {"3L-1P-3C-2B", 3, 1, 3, 2, false},
     {"2L-2P-3C-1B", 2, 2, 3, 1, false},
     {"2L-2P-2C-2B", 2, 2, 2, 2, false},
